@@ -87,7 +87,20 @@ def run(ctx):
         ctx.check(not used and ncalls == 0, "R10.2", f, "operand-untouched:" + tag, "the discarding operator<< %s its operand: a disabled statement still evaluates something" % ("uses" if used else "calls a function with"), f)
         ctx.check(okret, "R10.2", f, "returns-stream:" + tag, "the discarding operator<< returns %s" % [fmt(r) for r in rets], f)
 
-    # ---- R10.3
+    # ---- R10.3: the insertion gate `if (s)` means exactly "the statement was accepted" - the same condition the destructor emits under
+    gate = [f for f in fns if f.is_pattern and f.cls == SS and (f.kind == "conversion" or f.name == "operator bool")]
+    ctx.need("R10.3", "smart_stream::operator bool", len(gate), 1)
+    for f in gate:
+        from sa import logic as _lg
+        lgc = _lg.Logic(prog, callgraph(ctx))
+        form = lgc.fn_formula(f, {"this": None, "params": {}})
+        if form is None:
+            ctx.broken("R10.3", f, "gate-means-accepted", "operator bool of the stream is not a loop-free predicate", f)
+            continue
+        want = [("a", "nonnull(this.s)"), ("a", "nonnull(this.r)")]
+        eqv = any(_lg.equivalent(form, w, lgc.axioms) for w in want)
+        ctx.check(eqv, "R10.3", f, "gate-means-accepted", "operator bool is %s, not `the message buffer exists`: insertions (and the lazily streamed callables among them) are skipped under a "
+                  "condition under which the record is nevertheless emitted - an emitted record then did not evaluate its callable" % _lg.show(form), f, why_ok=_lg.show(form))
     ops = [f for f in fns if f.is_pattern and f.op == "<<" and f.params and "smart_stream" in (f.params[0].get("type") or "")]
     ctx.need("R10.3", "smart_stream operator<< overloads", len(ops), 4)
     ncallable = 0
